@@ -402,18 +402,19 @@ func (w *zzW) keyAndPrefix() int { return w.keyAndPrefixD(false, false) }
 func (w *zzW) keyAndPrefixOps(anyOp bool) int { return w.keyAndPrefixD(anyOp, false) }
 
 // keyAndPrefixDeep: the same with the deeper prefix bounds "depth_d" /
-// "depth_bd" (default: depth / depth_b), used by the laws that are cheap enough
-// to afford them in the thorough tier.
+// "depth_bd" on the first "lawkeys_d" keys (defaults: depth / depth_b /
+// lawkeys), used by the laws that are cheap enough to afford a deeper prefix in
+// the thorough tier.
 func (w *zzW) keyAndPrefixDeep(anyOp bool) int { return w.keyAndPrefixD(anyOp, true) }
 
 func (w *zzW) keyAndPrefixD(anyOp, deep bool) int {
-	k := zzChoice("key", zzParam("lawkeys", 2))
-	menu := zzChoice("base", zzNBase)
-	w.base(k, menu, "base", anyOp)
-	d, db := zzParam("depth", 2), zzParam("depth_b", 1)
-	if deep {
+	nk, d, db := zzParam("lawkeys", 2), zzParam("depth", 2), zzParam("depth_b", 1)
+	k := zzChoice("key", nk)
+	if deep && k < zzParam("lawkeys_d", nk) {
 		d, db = zzParam("depth_d", d), zzParam("depth_bd", db)
 	}
+	menu := zzChoice("base", zzNBase)
+	w.base(k, menu, "base", anyOp)
 	if menu == zzBaseEmpty {
 		w.prefixN(d, k)
 	} else {
